@@ -104,6 +104,8 @@ def rand_adoc(rng, key, rich=True):
         if f in d["s"]:
             d["c"][f] = d["s"][f]
     d["n"] = {}
+    # fields whose stored value is given separately from the indexed one
+    d["ovr"] = [f for f in ("num", "ratio", "flag", "big") if f in d["s"] and rng.random() < 0.3]
     return d
 
 
@@ -117,6 +119,11 @@ def concrete_kwargs(d):
         v = POOLS[f][i - 1]
         if f == "blob":
             kw["blob"] = v
+        elif f in d.get("ovr", ()):
+            # "_stored_<field>": another value is indexed, this one is stored (and kept in the column) - also when
+            # it is one that counts as false (0, 0.0, False)
+            kw[f] = POOLS[f][i % len(POOLS[f])]
+            kw["_stored_" + f] = v
         else:
             kw[f] = v
     for f, i in d["c"].items():
